@@ -23,6 +23,7 @@ import (
 	"fmt"
 	"image/color"
 	"net"
+	"os"
 	"reflect"
 	"sort"
 	"strconv"
@@ -184,7 +185,14 @@ func vFieldMap(m Message) map[string][]string {
 	if v.Kind() != reflect.Ptr || v.IsNil() || v.Elem().Kind() != reflect.Struct {
 		return out
 	}
-	v = v.Elem()
+	vFieldsOf(v.Elem(), out, "")
+	return out
+}
+
+// vFieldsOf: the fields of one struct value; embedded structs (DynCommit embeds DynPropose
+// and DynAck) are entered afterwards: their fields appear as "Embedded.F" and, when no
+// shallower field has that name, promoted as "F" (Go's selector rule).
+func vFieldsOf(v reflect.Value, out map[string][]string, prefix string) {
 	byteArr := func(a reflect.Value) []byte {
 		b := make([]byte, a.Len())
 		for i := range b {
@@ -192,12 +200,17 @@ func vFieldMap(m Message) map[string][]string {
 		}
 		return b
 	}
+	var embedded []int
 	for i := 0; i < v.NumField(); i++ {
 		sf := v.Type().Field(i)
 		if !sf.IsExported() {
 			continue
 		}
-		name, f := sf.Name, v.Field(i)
+		if sf.Anonymous && sf.Type.Kind() == reflect.Struct {
+			embedded = append(embedded, i)
+			continue
+		}
+		name, f := prefix+sf.Name, v.Field(i)
 		switch x := f.Interface().(type) {
 		case ShortChannelID:
 			out[name] = fN(x.ToUint64())
@@ -253,7 +266,17 @@ func vFieldMap(m Message) map[string][]string {
 			}
 		}
 	}
-	return out
+	for _, i := range embedded {
+		sub := map[string][]string{}
+		vFieldsOf(v.Field(i), sub, "")
+		en := v.Type().Field(i).Name
+		for k, val := range sub {
+			out[prefix+en+"."+k] = val
+			if _, shadowed := out[prefix+k]; !shadowed {
+				out[prefix+k] = val
+			}
+		}
+	}
 }
 
 // vAddrBytes: the BOLT-7 descriptors of a decoded address list, written here by hand
@@ -860,9 +883,10 @@ func vTlvLens(b []byte, into map[uint64][]int) {
 var vCraftHint map[uint64][]int
 
 func vCraftExt(r *vrng) []byte {
-	types := []uint64{0, 1, 2, 3, 4, 5, 6, 7, 8, 20, 22, 253, 55555, 65535, 65536, 65537, 1<<32 - 3}
+	types := []uint64{0, 1, 2, 3, 4, 5, 6, 7, 8, 10, 12, 14, 20, 22, 253, 55555, 65535, 65536, 65537, 1<<32 - 3}
 	plaus := map[uint64][]int{0: {0, 22, 33, 34, 66}, 1: {0, 1, 2, 3, 8, 64}, 2: {4, 64, 66, 98},
-		3: {64}, 4: {4, 66}, 5: {32, 98}, 6: {32, 98}, 7: {32, 98}, 8: {66}, 20: {8},
+		3: {64}, 4: {4, 66}, 5: {32, 98}, 6: {32, 98}, 7: {32, 98}, 8: {2, 66}, 10: {2}, 12: {0, 1, 2},
+		14: {66}, 20: {8},
 		22: {0, 66, 98, 196}, 55555: {8}, 65536: {4}}
 	anyLen := []int{0, 1, 2, 3, 4, 7, 8, 9, 31, 32, 33, 34, 65, 66, 67, 97, 98, 99}
 	p := 30 + r.intn(40)
@@ -914,6 +938,19 @@ func vCraftExt(r *vrng) []byte {
 		if t == 22 && r.intn(2) == 0 {
 			v = vNonceMap(r)
 			n = len(v)
+		}
+		if (t == 0 || t == 2 || t == 4 || t == 6) && r.intn(3) == 0 {
+			// a BigSize integer as value (DynPropose: dust limit, max in flight, htlc minimum,
+			// reserve), sometimes under a wrong announced length (tlv.DBigSize ignores it)
+			x := []uint64{0, 1, 0xfc, 0xfd, 0xffff, 0x10000, 0xffffffff, 0x100000000, 1<<64 - 1}[r.intn(9)]
+			v = vBigSize(x)
+			n = len(v)
+			if r.intn(3) == 0 {
+				n = []int{0, 1, 2, 3, 5, 9, 10}[r.intn(7)]
+			}
+			if r.intn(8) == 0 && len(v) > 1 {
+				v = append([]byte{v[0]}, make([]byte, len(v)-1)...) // non-minimal
+			}
 		}
 		var rec []byte
 		rec = append(rec, vBigSize(t)...)
@@ -983,14 +1020,41 @@ func vGenValue(t MessageType, seed int) (m Message, pan string) {
 	return g.Example(seed), ""
 }
 
+// vOnly parses VERIF_ONLY / VERIF_ONLY_FAIL ("258,136"): the directed search of
+// props/c10.py re-runs the generators for exactly the affected message types /
+// failure codes with VERIF_BOOST times the volume.
+func vOnly(name string) map[int]bool {
+	s := os.Getenv(name)
+	if s == "" {
+		return nil
+	}
+	m := map[int]bool{}
+	for _, f := range strings.Split(s, ",") {
+		if n, err := strconv.Atoi(strings.TrimSpace(f)); err == nil {
+			m[n] = true
+		}
+	}
+	return m
+}
+
+var vBoost = int(vEnvInt("VERIF_BOOST", 1))
+
 func TestVerifWire(t *testing.T) {
 	out := vOpenOut()
 	defer out.close()
 	master := vNewRng(vSeed())
-	nval := vCases(6, 120)
-	nmut := vCases(40, 1500)
+	nval := vCases(6, 120) * vBoost
+	nmut := vCases(40, 1500) * vBoost
+	only, onlyFail := vOnly("VERIF_ONLY"), vOnly("VERIF_ONLY_FAIL")
+	directed := only != nil || onlyFail != nil
+	if directed {
+		master = master.fork(0xd1ec7ed) // other inputs than the first run
+	}
 
 	for _, mt := range vTypes() {
+		if directed && !only[int(mt)] {
+			continue
+		}
 		var bases [][]byte
 		r := master.fork(uint64(mt))
 		for i := 0; i < nval; i++ {
@@ -1060,7 +1124,9 @@ func TestVerifWire(t *testing.T) {
 		}
 		out.emit(vCheckBytes(mt, tb[:], "empty-body", nil))
 		if mt == MsgNodeAnnouncement {
-			vAddrRows(out, mt, r.fork(800000), bases)
+			for k := 0; k < vBoost; k++ {
+				vAddrRows(out, mt, r.fork(uint64(800000+k)), bases)
+			}
 		}
 		// feature vectors at the bit-index boundaries (see vFeatRows)
 		vFeatRows(out, mt, r.fork(700000))
@@ -1076,7 +1142,7 @@ func TestVerifWire(t *testing.T) {
 					vTlvLens(b[k:], vCraftHint)
 				}
 			}
-			ncraft := vCases(24, 800)
+			ncraft := vCases(24, 800) * vBoost
 			for i := 0; i < ncraft; i++ {
 				rr := r.fork(uint64(500000 + i))
 				base := bases[rr.intn(len(bases))]
@@ -1086,6 +1152,31 @@ func TestVerifWire(t *testing.T) {
 				}
 				b := append(append([]byte{}, base[:kk]...), vCraftExt(rr)...)
 				out.emit(vCheckBytes(mt, b, "tlv-craft", nil))
+			}
+		}
+		if directed {
+			// exhaustive single-byte sweep over the head of every valid encoding: every
+			// flag / length / type byte takes its neighbours and the edge values once
+			for bi, base := range bases {
+				if bi >= 12 {
+					break
+				}
+				for p := 2; p < len(base) && p < 220; p++ {
+					o := base[p]
+					for _, v := range []byte{0, 1, 2, 3, 0x7f, 0x80, 0xff, o ^ 1, o ^ 2, o ^ 4, o + 1, o - 1} {
+						if v == o {
+							continue
+						}
+						b := append([]byte{}, base...)
+						b[p] = v
+						row := vCheckBytes(mt, b, "byte-sweep", base)
+						// only the interesting rows are kept: accepted inputs
+						if row["ok"] == true {
+							delete(row, "fmap")
+							out.emit(row)
+						}
+					}
+				}
 			}
 		}
 		for i := 0; i < nmut; i++ {
@@ -1104,6 +1195,12 @@ func TestVerifWire(t *testing.T) {
 		}
 	}
 
+	if directed {
+		if onlyFail != nil {
+			vFailures(out, master, onlyFail)
+		}
+		return
+	}
 	// ---- size boundary: messages of 65533/65534 body bytes ----
 	for _, n := range []int{65529, 65530, 65531, 65532, 65533} {
 		for _, mt := range []MessageType{MsgPing, MsgPong, CustomTypeStart, MsgUpdateFee} {
@@ -1157,7 +1254,7 @@ func TestVerifWire(t *testing.T) {
 			"dec_ok": true, "equal": true, "enc2_same": true, "err": fmt.Sprint(err)})
 	}
 
-	vFailures(out, master)
+	vFailures(out, master, nil)
 }
 
 // ---------------------------------------------------------------- onion failures
@@ -1249,11 +1346,11 @@ func vCheckFail(b []byte, full bool, mut string, code int) vRow {
 	return row
 }
 
-func vFailures(out *vWriter, master *vrng) {
+func vFailures(out *vWriter, master *vrng, only map[int]bool) {
 	r := master.fork(1 << 50)
 	var codes []uint16
 	for c := 0; c < 65536; c++ {
-		if _, err := makeEmptyOnionError(FailCode(c)); err == nil {
+		if _, err := makeEmptyOnionError(FailCode(c)); err == nil && (only == nil || only[c]) {
 			codes = append(codes, uint16(c))
 		}
 	}
@@ -1323,7 +1420,7 @@ func vFailures(out *vWriter, master *vrng) {
 		b = append(b, byte(pad>>8), byte(pad))
 		return append(b, make([]byte, pad)...)
 	}
-	nmut := vCases(12, 400)
+	nmut := vCases(12, 400) * vBoost
 	for _, c := range codes {
 		var bases [][]byte
 		for _, s := range shapes() {
